@@ -333,7 +333,7 @@ func oneRun(seed int64, mode string, failAt int) runOut {
 					a = append(a, fmt.Sprintf("%#x", uint64(int64(l.Address)+off)))
 				}
 			}
-			askable[strings.Join(a, "+")] = true
+			askable[addrSet(strings.Join(a, "+"))] = true
 		}
 	}
 	ui := &drv.UI{}
@@ -359,7 +359,7 @@ func oneRun(seed int64, mode string, failAt int) runOut {
 	default:
 		if remoteOnly {
 			for _, body := range sc.posts {
-				if !askable[body] {
+				if !askable[addrSet(body)] {
 					out.msg = fmt.Sprintf("%s: the symbol service was asked about %q; it may only be asked about the addresses of locations that have no lines yet (per mapping: %v)", ctx, body, keysOf(askable))
 				}
 			}
@@ -608,4 +608,19 @@ func init() {
 			return ""
 		},
 	})
+}
+
+// addrSet reduces a symbol request ("a+b+c") to the set of addresses it asks about: in which order
+// and how often an address is listed is the client's business.
+func addrSet(body string) string {
+	seen := map[string]bool{}
+	var out []string
+	for _, t := range strings.Split(body, "+") {
+		if !seen[t] {
+			seen[t] = true
+			out = append(out, t)
+		}
+	}
+	sort.Strings(out)
+	return strings.Join(out, "+")
 }
